@@ -353,7 +353,7 @@ def _kernel(ctx, P):
                                 cond_hook=cond_hook({"theta": theta_rep, "phi": [float(i) for i in range(len(theta_rep))]}))
                 out = Obj("ndarray", "output")
                 try:
-                    outs = ev.run_paths(kfi, lambda: dict(phi=Obj("ndarray", "phi"), theta=Obj("ndarray", "theta"), target_theta_levels=[Lin.sym("lev")], mask_edges=mask, bypass_checks=bypass, output=out))
+                    outs = ev.run_paths(kfi, lambda: dict(phi=Obj("ndarray", "phi", (), {"ndim": 1}), theta=Obj("ndarray", "theta", (), {"ndim": 1}), target_theta_levels=[Lin.sym("lev")], mask_edges=mask, bypass_checks=bypass, output=out))
                 except Unmodelled as e:
                     ctx.unknown("R08.2", inst, str(e))
                     continue
@@ -420,7 +420,7 @@ def _mask_many(ctx, P):
                                               "numpy.nanmin": lambda ev, a, k, n_: Lin.sym("tmin")})
             out = Obj("ndarray", "output")
             try:
-                outs = ev.run_paths(kfi, lambda: dict(phi=Obj("ndarray", "phi"), theta=Obj("ndarray", "theta"), target_theta_levels=[Lin.sym("l0"), Lin.sym("l1"), Lin.sym("l2")],
+                outs = ev.run_paths(kfi, lambda: dict(phi=Obj("ndarray", "phi", (), {"ndim": 1}), theta=Obj("ndarray", "theta", (), {"ndim": 1}), target_theta_levels=[Lin.sym("l0"), Lin.sym("l1"), Lin.sym("l2")],
                                                       mask_edges=mask, bypass_checks=True, output=out))
             except Unmodelled as e:
                 ctx.unknown("R08.3", f"levels {combo}", str(e))
